@@ -4,12 +4,13 @@ SPEC = dict(
     level="proof",
     harness=dict(pkg_dir="cmd/zoekt-local-sync", run="TestVerifC33$", files=["cmd/zoekt-local-sync/zz_verif_c33_test.go"],
                  n_quick=90, n_thorough=800, pkg_name="main"),
-    runner=dict(imports=["From ZV Require Import Lib.Base Model.LocalSync."], case_type="lscase",
-                mismatch_fn="ls_mismatches", shard=100),
+    runner=dict(imports=["From ZV Require Import Lib.Base Model.LocalSync Model.LocalSyncIdem."], case_type="lscase3",
+                mismatch_fn="ls3_mismatches", shard=100),
     rule="histories over a scratch world (roots r1, r2, r1/team, r3.git; work/bare/empty/broken git repositories copied from "
          "git-CLI templates; add, move between roots keeping the name, rename, new commit, zoekt.web-url change, delete, clutter) "
          "and one index directory (missing/empty/populated by earlier real runs, shards of other tools, foreign files, corrupt "
-         "shard, multi-shard repositories); every step runs the real execute() as preview then with -f (sync with varying root "
+         "shard, multi-shard repositories); every step runs the real execute() as preview, then with -f, then as preview AGAIN on the state the forced "
+         "run left (all three outputs and error classes go to the model) (sync with varying root "
          "sets incl. overlapping/duplicate/missing roots, or remove with name/source selectors); non-trivial = the preview "
          "announces at least one removal or indexing, or fails. 60 % of the histories start from an index brought up to date by a "
          "set-up run; class labels decision=... record which IndexState branch each previewed decision came from.",
